@@ -41,3 +41,25 @@ Proof.
   exists s. split; [eapply brun_reachable; [apply br_init | exact E]|].
   destruct l; vm_compute in E; inversion E; subst; cbn; auto.
 Qed.
+
+Inductive nreachable (l : launch) : state -> Prop :=
+| nr_init : nreachable l init
+| nr_step : forall s lab s', nreachable l s -> nstep l s lab = Some s' -> nreachable l s'.
+
+Lemma nrun_reachable : forall l ls s s', nreachable l s -> nrun l s ls = Some s' -> nreachable l s'.
+Proof.
+  intros l ls. induction ls as [|x q IH]; intros s s' R H; cbn [nrun] in H.
+  - inversion H; subst; exact R.
+  - destruct (nstep l s x) as [s1|] eqn:E; [|discriminate H].
+    eapply IH; [eapply nr_step; [exact R | exact E] | exact H].
+Qed.
+
+(* start() has returned, shouldBeRunning is set, and the loop thread sleeps un-notified: it cannot move *)
+Lemma early_notify_loses_wakeup : forall l, exists s,
+  nreachable l s /\ start_ret s = true /\ run s = true /\ lp s = LSleep /\ cv s = CvAsleep /\
+  step_loop Repaired s = None.
+Proof.
+  intro l. destruct (nrun l init early_notify_schedule) as [s|] eqn:E; [| destruct l; vm_compute in E; discriminate E].
+  exists s. split; [eapply nrun_reachable; [apply nr_init | exact E]|].
+  destruct l; vm_compute in E; inversion E; subst; cbn; auto 10.
+Qed.
